@@ -4,14 +4,15 @@ set_option linter.unusedVariables false
 namespace TdModel.Rpc
 
 set_option maxHeartbeats 4000000 in
-theorem retry_loop {cfg : Cfg} {s s' : State} {i : Nat} {b : LoopBr} (hg : cfg.guard = true) (hm : 1 ≤ cfg.maxRetries)
+theorem retry_loop {cfg : Cfg} {s s' : State} {i : Nat} {b : LoopBr} (hg : cfg.std = true) (hm : 1 ≤ cfg.maxRetries)
     (h : Retry cfg s) (hs : stepLoop cfg s i b = some s') : Retry cfg s' := by
   unfold stepLoop at hs
+  std_norm hg at hs
   split at hs
   · simp at hs
   · split at hs
     · simp at hs
-    · dsimp only at hs
+    · try dsimp only at hs
       split at hs
       all_goals (split at hs <;> try (simp at hs))
       all_goals (try (split at hs <;> try (simp at hs)))
@@ -19,9 +20,10 @@ theorem retry_loop {cfg : Cfg} {s s' : State} {i : Nat} {b : LoopBr} (hg : cfg.g
       all_goals retry_close hg
 
 set_option maxHeartbeats 4000000 in
-theorem retry_wait {cfg : Cfg} {s s' : State} {i : Nat} {b : WaitBr} (hg : cfg.guard = true) (hm : 1 ≤ cfg.maxRetries)
+theorem retry_wait {cfg : Cfg} {s s' : State} {i : Nat} {b : WaitBr} (hg : cfg.std = true) (hm : 1 ≤ cfg.maxRetries)
     (h : Retry cfg s) (hs : stepWait cfg s i b = some s') : Retry cfg s' := by
   unfold stepWait at hs
+  std_norm hg at hs
   split at hs
   · simp at hs
   · split at hs
@@ -33,9 +35,10 @@ theorem retry_wait {cfg : Cfg} {s s' : State} {i : Nat} {b : WaitBr} (hg : cfg.g
       all_goals retry_close hg
 
 set_option maxHeartbeats 4000000 in
-theorem retry_dret {cfg : Cfg} {s s' : State} {i : Nat} {o : Outcome} (hg : cfg.guard = true) (hm : 1 ≤ cfg.maxRetries)
+theorem retry_dret {cfg : Cfg} {s s' : State} {i : Nat} {o : Outcome} (hg : cfg.std = true) (hm : 1 ≤ cfg.maxRetries)
     (h : Retry cfg s) (hs : stepDret cfg s i o = some s') : Retry cfg s' := by
   unfold stepDret at hs
+  std_norm hg at hs
   split at hs
   · simp at hs
   · split at hs <;> simp at hs
@@ -43,13 +46,14 @@ theorem retry_dret {cfg : Cfg} {s s' : State} {i : Nat} {o : Outcome} (hg : cfg.
     retry_close hg
 
 set_option maxHeartbeats 4000000 in
-theorem retry_gpass {cfg : Cfg} {s s' : State} {i : Nat} (hm : 1 ≤ cfg.maxRetries) (h : Retry cfg s)
-    (hs : stepGpass s i = some s') : Retry cfg s' := by
+theorem retry_gpass {cfg : Cfg} {s s' : State} {i : Nat} (hg : cfg.std = true) (hm : 1 ≤ cfg.maxRetries) (h : Retry cfg s)
+    (hs : stepGpass cfg s i = some s') : Retry cfg s' := by
   unfold stepGpass at hs
+  std_norm hg at hs
   split at hs
   · simp at hs
   · split at hs <;> simp at hs
     subst hs
-    retry_close True.intro
+    retry_close hg
 
 end TdModel.Rpc
